@@ -341,6 +341,38 @@ def sdom_cert(e):
     return out
 
 
+def nf_maps(nf):
+    """coefficient maps of a parsed time normal form"""
+    reg, sing = {}, {}
+    for T, n, p, c, st in nf['reg']:
+        k = (Fraction(T), n, Fraction(p[0]), Fraction(p[1]))
+        v = reg.get(k, (Fraction(0), Fraction(0)))
+        reg[k] = (v[0] + Fraction(c[0]), v[1] + Fraction(c[1]))
+    for T, k_, c in nf['sing']:
+        k = (Fraction(T), k_)
+        v = sing.get(k, (Fraction(0), Fraction(0)))
+        sing[k] = (v[0] + Fraction(c[0]), v[1] + Fraction(c[1]))
+    z = (Fraction(0), Fraction(0))
+    return {k: v for k, v in reg.items() if v != z}, {k: v for k, v in sing.items() if v != z}
+
+
+def cert_maps(sd):
+    """coefficient maps of the termwise inverse of a certified s-domain value"""
+    reg, sing = {}, {}
+    for ce in sd:
+        T = Fraction(ce['T'])
+        for r, p, o in ce['ts']:
+            k = (T, o - 1, Fraction(p[0]), Fraction(p[1]))
+            v = reg.get(k, (Fraction(0), Fraction(0)))
+            reg[k] = (v[0] + Fraction(r[0]), v[1] + Fraction(r[1]))
+        for k_, c in enumerate(ce['Q']):
+            k = (T, k_)
+            v = sing.get(k, (Fraction(0), Fraction(0)))
+            sing[k] = (v[0] + Fraction(c[0]), v[1] + Fraction(c[1]))
+    z = (Fraction(0), Fraction(0))
+    return {k: v for k, v in reg.items() if v != z}, {k: v for k, v in sing.items() if v != z}
+
+
 # ------------------------------------------------------------------ oracle (sympy on the raw expressions)
 def strip_cond(e):
     if isinstance(e, sym.Piecewise) and len(e.args) == 1 and e.args[0][1] == (Tt >= 0):
@@ -555,6 +587,17 @@ def run_circuit(case):
                 r['sdom'] = {'error': str(ex)[:160]}
             except ValueError as ex:
                 r['sdom'] = {'error': 'ValueError: ' + str(ex)[:160]}
+            # diagnosis only: when the time function is not the inverse of the s-domain value, is the
+            # inverse transform of the EXPANDED s-domain expression the right one?
+            if isinstance(r['sdom'], list) and 'unparsed' not in r['time']:
+                if nf_maps(r['time']) != cert_maps(r['sdom']):
+                    try:
+                        alt = lcapy.LaplaceDomainExpression(sym.expand(se))(lt)
+                        r['alt_equal'] = bool(nf_maps(parse_time(alt.sympy)) == cert_maps(r['sdom']))
+                    except CaseTimeout:
+                        raise
+                    except Exception as ex:
+                        r['alt_equal'] = False
         except CaseTimeout:
             raise
         except Exception as ex:
@@ -587,6 +630,9 @@ def run_switch(case):
     c = Circuit()
     for line in case['netlist']:
         c.add(line)
+    tq = Rational(sw['t'])
+    targ = int(tq) if tq.q == 1 else float(tq)
+    pre = {'after': netlist_lines(c.replace_switches(targ)), 'before': netlist_lines(c.replace_switches_before(targ))}
     log = []
     orig = {}
 
@@ -598,7 +644,7 @@ def run_switch(case):
             r = f(self, *a, **k)
             try:
                 log.append({'call': name, 'args': [str(x)[:40] if not hasattr(x, 'elements') else netlist_lines(x) for x in a],
-                            'self': netlist_lines(self), 'ret': netlist_lines(r)})
+                            'self': netlist_lines(self), 'ret': netlist_lines(r) if hasattr(r, 'elements') else str(r)[:40]})
             except Exception:
                 pass
             return r
@@ -606,9 +652,8 @@ def run_switch(case):
     for nm in ('replace_switches', 'replace_switches_before', 'initialize'):
         wrap(nm)
     try:
-        tq = Rational(sw['t'])
-        targ = int(tq) if tq.q == 1 else tq
         out = {'times': [str(x) for x in c.switching_times()]}
+        out.update(pre)
         ivp = c.convert_IVP(targ)
     finally:
         for nm, f in orig.items():
